@@ -453,7 +453,7 @@ def text_of(rows):
     return "\n".join(rows)
 
 
-def run_threads(nthreads, reqs, tag="thr", timeout=600, same_start=False):
+def run_threads(nthreads, reqs, tag="thr", timeout=3600, same_start=False):
     """bobdrive threads mode in a fresh process; returns (call lines, lazy lines)"""
     d = rundir()
     fin = os.path.join(d, "%s-%d.in" % (tag, random.randrange(1 << 30)))
@@ -478,7 +478,7 @@ def run_threads(nthreads, reqs, tag="thr", timeout=600, same_start=False):
     return calls, lazy
 
 
-def run_batch_process(reqs, tag="proc", timeout=600):
+def run_batch_process(reqs, tag="proc", timeout=3600):
     """one fresh bobdrive batch process over reqs in the given order; returns responses in order"""
     d = rundir()
     fin = os.path.join(d, "%s-%d.in" % (tag, random.randrange(1 << 30)))
